@@ -214,7 +214,9 @@ func shapeChange(base string, loops int, unc []string) string {
 	if k := strings.Index(base, "uncontracted="); k >= 0 {
 		bu = base[k+len("uncontracted="):]
 	}
-	if bl != loops {
+	if bl != loops && loops > 0 {
+		// (with no loop left there is nothing a loop clause could be mis-anchored on:
+		// the clauses are orphans and the postconditions decide)
 		return fmt.Sprintf("the function has %d loops, its contract was anchored on %d", loops, bl)
 	}
 	have := map[string]bool{}
